@@ -50,6 +50,15 @@ def pushable(t):
     return all(pushable(a) for a in t[1:])
 
 
+def packable(t):
+    """the packable types of the model: the plain data classes"""
+    if t[0] in ('unit', 'bool', 'int', 'nat', 'mutez', 'timestamp', 'string', 'bytes'):
+        return True
+    if t[0] in ('option', 'list', 'set', 'or', 'pair', 'map'):
+        return all(packable(a) for a in t[1:])
+    return False
+
+
 def comb_leaves(t):
     """component types along the right spine of a pair type (a non-pair is its own single leaf)"""
     out = []
@@ -362,6 +371,7 @@ class Gen:
         add(1.6, 'CONV', lambda: self._conv_idiom(st))
         add(0.9, 'KEYS', lambda: self._key_idiom(st))
         add(2.2, 'CONTRACTS', lambda: self._contract_idiom(st))
+        add(1.6, 'PACKING', lambda: self._pack_idiom(st))
         if not self.in_lambda:
             add(0.6, 'SELF', lambda: self._self(st))
         if depth > 0:
@@ -415,6 +425,8 @@ class Gen:
                 add(5, 'IMPLICIT_ACCOUNT', lambda: ([{'prim': 'IMPLICIT_ACCOUNT'}], [('contract', ('unit',))] + st[1:]))
             if top == ('option', ('key_hash',)):
                 add(8, 'SET_DELEGATE', lambda: ([{'prim': 'SET_DELEGATE'}], [('operation',)] + st[1:]))
+            if packable(top):
+                add(1.5, 'PACK', lambda: ([{'prim': 'PACK'}], [('bytes',)] + st[1:]))
             if top[0] == 'contract':
                 add(8, 'ADDRESS', lambda: ([{'prim': 'ADDRESS'}], [('address',)] + st[1:]))
             if top[0] == 'address':
@@ -866,6 +878,53 @@ class Gen:
             self.note('TRANSFER_TOKENS')
             return code + [P('PUSH', ty_mich(('mutez',)), {'int': str(amount)}), self.push(t), P('TRANSFER_TOKENS')], [('operation',)] + st
         return code, st2
+
+    # ---- phase B (first half): PACK of every plain value class ---------------------------------------------------------
+    PACK_LEAVES = [('unit',), ('bool',), ('int',), ('nat',), ('mutez',), ('timestamp',), ('string',), ('bytes',)]
+
+    def gen_packable_type(self, depth=2):
+        r = self.rng
+        if depth <= 0 or r.random() < 0.35:
+            return r.choice(self.PACK_LEAVES)
+        k = r.randrange(7)
+        if k == 0:
+            return ('option', self.gen_packable_type(depth - 1))
+        if k == 1:
+            return ('or', self.gen_packable_type(depth - 1), self.gen_packable_type(depth - 1))
+        if k == 2:
+            return ('list', self.gen_packable_type(depth - 1))
+        if k == 3:
+            return ('set', r.choice(SET_ELT))
+        if k == 4:
+            return ('map', r.choice(SET_ELT), self.gen_packable_type(depth - 1))
+        # right combs of 2 .. 6 components (2: `Pair a b`, 3: `Pair a (Pair b c)`, 4 and more: the sequence form), with pair leaves
+        n = r.choice([2, 2, 3, 3, 4, 4, 5, 6])
+        leaves = [self.gen_packable_type(depth - 1) if r.random() < 0.3 else r.choice(self.PACK_LEAVES) for _ in range(n)]
+        if r.random() < 0.25:
+            leaves[r.randrange(n - 1)] = ('pair', r.choice(self.PACK_LEAVES), r.choice(self.PACK_LEAVES))      # a pair on the left
+        self.shape(f'PACK comb of {n if n < 4 else "4+"}')
+        return comb_of(leaves)
+
+    def _pack_idiom(self, st):
+        """PACK of a pushed value of every plain class: numbers around the zarith byte boundaries (±63 / ±64, ±8191 / ±8192, big),
+        empty and long strings / bytes, combs of 2, 3, 4+ components, empty and non-empty collections"""
+        r = self.rng
+        t = self.gen_packable_type(2)
+        if t[0] in ('int', 'nat', 'mutez', 'timestamp') and r.random() < 0.7:
+            v = r.choice([0, 1, 63, 64, 127, 128, 8191, 8192, 2**31, 2**62, 2**63 - 1])
+            if t[0] in ('int', 'timestamp') and r.random() < 0.5:
+                v = -v
+            val = {'int': str(v)}
+            self.shape('PACK number ' + ('0' if v == 0 else ('one byte' if abs(v) < 64 else ('two bytes' if abs(v) < 8192 else 'long'))))
+        elif t[0] in ('string', 'bytes') and r.random() < 0.5:
+            n = r.choice([0, 1, 255, 256, 300])
+            val = {'string': 'a' * n} if t[0] == 'string' else {'bytes': r.bytes_(n).hex()}
+            self.shape(f'PACK {t[0]} of length {n if n < 2 else ("<256" if n < 256 else "256+")}')
+        else:
+            val = self.gen_value(t, depth=3)
+        self.shape('PACK of ' + t[0])
+        self.note('PACK')
+        return [{'prim': 'PUSH', 'args': [ty_mich(t), val]}, {'prim': 'PACK'}], [('bytes',)] + st
 
     def _hash_idiom(self, st):
         """hash a pushed byte string (lengths around the block sizes of the five functions), sometimes twice"""
